@@ -7,7 +7,7 @@ table, branchforks only adds 1:1 forks, Verilog and bench renderings agree.
 import itertools
 import traceback
 
-from mc import common, families as F, ref, render
+from mc import common, families as F, lsim, ref, render
 from mc.netlist import NL
 from checks.c10 import tt
 
@@ -31,7 +31,9 @@ def nl_family(tier, seed):
         out.append(NL(3, [], [(kind, tuple(f'i{j % 3}' for j in range(a)))], ['g0']))
         if a >= 2:
             out.append(NL(3, [], [(kind, tuple([None] + [f'i{j % 3}' for j in range(1, a)]))], ['g0']))
-            out.append(NL(3, [], [(kind, tuple(['c1'] + [f'i{j % 3}' for j in range(1, a - 1)] + ['c0'] if a >= 3 else ['c1', 'i0']))], ['g0']))
+            # one constant per netlist, so that it is never masked by the controlling value of the other one
+            out.append(NL(3, [], [(kind, tuple(['c1'] + [f'i{j % 3}' for j in range(1, a)]))], ['g0']))
+            out.append(NL(3, [], [(kind, tuple([f'i{j % 3}' for j in range(a - 1)] + ['c0']))], ['g0']))
     # two-gate, fan-out, several outputs, output tapping an input, same signal on two outputs
     out.append(NL(3, [], [('NAND2', ('i0', 'i1')), ('XOR2', ('g0', 'i2')), ('INV1', ('g0',))], ['g1', 'g2', 'g0']))
     out.append(NL(3, [], [('AO21', ('i0', 'i1', 'i2')), ('MUX21', ('g0', 'i0', 'i1'))], ['g1', 'i2']))
@@ -173,6 +175,19 @@ def v_case(res, case, lib, cmap, dff):
         if obs != exp:
             bad = sorted(k for k in set(obs) | set(exp) if obs.get(k) != exp.get(k))
             res.violation(key + '/function', case, f'{bad}: got {[obs.get(k) for k in bad]} expected {[exp.get(k) for k in bad]} {nl}\n{text}')
+        else:
+            # "simulate as the described netlist": the library's own 2-valued simulator on the parsed and resolved circuit, all patterns
+            # at once (the graph evaluation above gives every output pin of a cell a value; the simulators schedule cells their own way)
+            from kyupy.logic_sim import LogicSim
+            pos = {n.name: i for i, n in enumerate(c.s_nodes)}
+            sim = LogicSim(c, sims=npat, m=2)
+            for nm in names: lsim.assign2(sim, pos[nm[2:]], col[nm], npat)
+            sim.s_to_c(); sim.c_prop(); sim.c_to_s()
+            got = {k: lsim.read2(sim, 1, pos[k[2:]], npat) for k in exp}
+            if got != exp:
+                bad = sorted(k for k in exp if got[k] != exp[k])
+                res.violation(key + '/simulated', case, f'LogicSim on the parsed circuit: {bad}: got {[got[k] for k in bad]} expected {[exp[k] for k in bad]} {nl}\n{text}')
+            res.count('v_simulated')
         if any(x not in (0, mask) for x in exp.values()): res.sig(('v', case['lib'], case['nl'], devs, case['bf']))
         if len(res.samples) < 1 and len(case['opts']) >= 1: res.samples.append({'lib': case['lib'], 'opts': case['opts'], 'text': text})
         res.count('v_cases')
@@ -241,7 +256,7 @@ def b_case(res, case):
 
 
 def finish(agg, tier):
-    need = ['v_cases', 'v_branchforks', 'b_cases', 'cross_format']
+    need = ['v_cases', 'v_simulated', 'v_branchforks', 'b_cases', 'cross_format']
     missing = [k for k in need if not agg.counters.get(k)]
     if missing: raise common.HarnessError(f'vacuity guard: {missing} zero')
     return {}
